@@ -60,7 +60,7 @@ ASSUMPTIONS = [
 PARTIAL = [
     'expand_*: proved for one axis (any accepted sign); several axes / per-axis spacings under correspondence only',
     'slidingWindow_*: proved for a scalar window on one axis; window lists, axis lists and axis None under correspondence only',
-    'split_*: proved for N equal sections; cut-point lists under correspondence only',
+    'splitIdx_*: cut points >= 0 (a negative cut point wraps to a huge size_t in the C++ and means from-the-end in NumPy: outside the domain); splitIdx_partition additionally needs sorted cut points',
     'where, arange, linspace, full/zeros/ones(_like): no theorem (where: plumbing over broadcast, C06/C07; generators: IMPL vs NumPy only)',
     'per-element repeats with axis None: does not instantiate in nmtools (shape_repeat multiplies the product by the repeats list); not runnable, not claimed',
 ]
